@@ -26,7 +26,7 @@ KERNEL = {
         'text': "bounded symbolic execution of the real TieredInterval/TieredTime operators, update_min and min: tier values are unbounded symbolic integers, every branch and every obligation (trichotomy and converse agreement on semantically comparable pairs, transitivity, 'a<b => never later for any departure time', monotone addition, associativity, action law) is decided by z3 for every shape up to 3 (quick) / 4 (thorough) tiers; counterexamples are replayed with plain ints",
         'ref': 'DESIGN.md section 5 C08',
         'note': 'bounded in the number of tiers (group nesting depth), unbounded in tier values >= 0; trusts CPython tuple comparison / total_ordering / dataclass eq (executed, not modelled) and z3',
-        'tech': 'symbolic execution of the real Python code with z3 (own executor), QF_LIA obligations',
+        'tech': 'symbolic execution of the real Python code with z3 (own executor), QF_LIA obligations; thorough tier adds CrossHair (independent symbolic executor) on O1/O3 per shape pair',
     },
 }
 
